@@ -20,7 +20,8 @@ def run_scenario(sc):
     """sc = {shorts, storeOK, permitted, readdress, dryrun, draws:[[...]...], maxrounds} -> trace record"""
     from dali.sequences import Commissioning
     n = len(sc["shorts"])
-    bus = GearBus([Gear(short=s, store_ok=ok) for s, ok in zip(sc["shorts"], sc["storeOK"])])
+    inits = sc.get("inits") or ["DISABLED"] * n
+    bus = GearBus([Gear(short=s, store_ok=ok, init=it) for s, ok, it in zip(sc["shorts"], sc["storeOK"], inits)])
     draws = list(sc["draws"])
     state = {"round": 0}
 
@@ -40,7 +41,7 @@ def run_scenario(sc):
     events, out = drive(gen, answer, cap)
     cfg = {"shorts": sc["shorts"], "storeOK": sc["storeOK"], "permitted": sc["permitted"],
            "readdress": sc["readdress"], "dryrun": sc["dryrun"], "rands": [0] * n, "groups": [[] for _ in range(n)],
-           "dts": [[] for _ in range(n)], "dtr0": 0}
+           "dts": [[] for _ in range(n)], "dtr0": 0, "inits": list(inits)}
     return {"seq": "Commissioning", "cfg": cfg, "maxrounds": sc["maxrounds"], "ev": events,
             "out": {"exc": out["exc"]}, "scenario": sc}
 
@@ -71,8 +72,16 @@ def py_scenario(seed, k):
     final = list(pool)
     rng.shuffle(final)
     draws.append(final)
-    return {"shorts": shorts, "storeOK": store, "permitted": permitted, "readdress": rng.random() < 0.5,
-            "dryrun": rng.random() < 0.2, "draws": draws, "maxrounds": clash_rounds + 1, "src": "py:%d:%d" % (seed, k)}
+    sc = {"shorts": shorts, "storeOK": store, "permitted": permitted, "readdress": rng.random() < 0.5,
+          "dryrun": rng.random() < 0.2, "draws": draws, "maxrounds": clash_rounds + 1, "src": "py:%d:%d" % (seed, k)}
+    if k % 4 == 1:
+        # history: an earlier commissioning run was abandoned, some units are still in initialisation mode
+        sc["inits"] = [rng.choice(["DISABLED", "ENABLED", "WITHDRAWN"]) for _ in range(n)]
+        if k % 8 == 1 and n:
+            # ... and every permitted address is taken
+            sc["permitted"] = sorted({s_ for s_ in shorts if s_ != 255})[:3]
+            sc["readdress"] = False
+    return sc
 
 
 def _tla_cfg_to_scenario(cfgv, drawlog, maxrounds, src):
